@@ -141,6 +141,81 @@ def replay_release(job, obl, inputs, workdir):
     return rc == 1, out
 
 
+REPLAY_HEAP = r'''
+// Native replay for the pairing-heap obligation: the REAL PairingHeap (header from the working tree) with global operator new/delete replaced by a
+// canary-guarded allocator; deleteMin() on heaps whose root has 2..70 children must never write past an allocation.
+#include <cstdlib>
+#include <cstdio>
+#include <cstring>
+#include <new>
+static const size_t GUARD = 64; static int overruns = 0;
+void *operator new(size_t n) { unsigned char *p = (unsigned char *)malloc(n + sizeof(size_t) + GUARD); if (!p) throw std::bad_alloc(); memcpy(p, &n, sizeof(size_t)); memset(p + sizeof(size_t) + n, 0xA5, GUARD); return p + sizeof(size_t); }
+void operator delete(void *q) noexcept { if (!q) return; unsigned char *p = (unsigned char *)q - sizeof(size_t); size_t n; memcpy(&n, p, sizeof(size_t));
+  for (size_t i = 0; i < GUARD; ++i) if (p[sizeof(size_t) + n + i] != 0xA5) { overruns++; break; } free(p); }
+void operator delete(void *q, size_t) noexcept { operator delete(q); }
+#include "libvpsc/pairing_heap.h"
+int main() {
+  for (int k = 2; k <= 70; ++k) {
+    PairingHeap<int> *h = new PairingHeap<int>();
+    h->insert(0); for (int i = 1; i <= k; ++i) h->insert(i);      // the minimum first: every later element becomes a child of the root
+    h->deleteMin();                                                // combineSiblings over k siblings
+    while (!h->isEmpty()) h->deleteMin();
+    delete h;
+  }
+  if (overruns) { printf("REPRODUCED: %d allocation(s) of the pairing heap were written past their end\\n", overruns); return 1; }
+  printf("not reproduced: no allocation overrun for roots with 2..70 children\\n"); return 0;
+}
+'''
+
+
+def replay_heap(job, obl, inputs, workdir):
+    rc, out = native_run(REPLAY_HEAP, workdir, "replay_heap", extra=["-I", COLA], libs=[], timeout=600)
+    if rc is None:
+        return False, out
+    return rc == 1, out
+
+
+def mostViolated_job():
+    """IncSolver::mostViolated under contract (also run by the C01 check: the work list loses exactly the constraint that is returned)."""
+    base = "#include <verif_base.h>\n"
+    spec = spec_header() + rd(HERE, "safety.spec.c")
+    # ---------------- IncSolver::mostViolated: all list indices in bounds (loop contract)
+    c01 = _mod("C01")
+    pre = prelude("vpsc.h")
+    shim_filled = c01.fill(pre, c01.SHIM_POSITION, c01.SHIM_UPOSITION, c01.SHIM_SLACK)
+    mv = slice_func(SV, r'^Constraint\* IncSolver::mostViolated\(Constraints &l\)', "IncSolver::mostViolated")
+    zero = slice_lines(SV, r'^static const double ZERO_UPPERBOUND=-1e-10;', 1, "ZERO_UPPERBOUND")
+    # the function uses no member of IncSolver: the class qualifier is dropped so that its symbol has a single parameter
+    # (goto-instrument's loop-contract symbol_map cannot name symbols containing a comma); if it ever uses a member the TU stops compiling
+    mv_text = subst(mv, [(r'Constraint\* IncSolver::mostViolated\(Constraints &l\)', 'Constraint* mostViolated(Constraints &l)', 1)])
+    # "element i of the list is object i of a pool of distinct live constraints": a quantified precondition, instantiated at each l[i] by the stub vector's
+    # element hook (assume AND store); with it the job runs with pointer checks ON and can say WHICH element leaves the list
+    mv_cxx = ("#define VERIF_VECTOR_ELEMENT_HOOK\n" + base + c01.EXTERN +
+              'extern "C" { void *verif_g_l; void *verif_pool; }\n'
+              'extern "C" void verif_vector_element_hook(const void *vec, size_t i, const void *slot) {\n'
+              "  if (vec == (const void *)verif_g_l) {\n"
+              "    __CPROVER_assume(*(vpsc::Constraint *const *)slot == (vpsc::Constraint *)verif_pool + i);\n"
+              "    *(vpsc::Constraint **)slot = (vpsc::Constraint *)verif_pool + i; } }\n" +
+              shim_filled + "namespace vpsc {\n" + zero.text + "\n" + mv_text + "\n}\n"
+              'extern "C" { extern const unsigned long verif_sizeof_constraint = sizeof(vpsc::Constraint); }\n'
+              'extern "C" void *w_mostViolated(void *s, void *l) { verif_g_l = l; return vpsc::mostViolated(*(vpsc::Constraints *)l); }\n')
+    mv_sym = os.environ.get("VERIF_MV_SYM", "vpsc::mostViolated(ref_struct_tag(identifier=vpsc::tag-Constraints))")
+    LD = "((struct{void*d;unsigned long n;unsigned long cap;}__attribute__((packed))*)verif_g_l)->d"
+    return (Job("mostViolated", "U", spec, "h_mostViolated", cxx=mv_cxx, enforce="w_mostViolated", replace=["w_slack"],
+                  defines=["JOB_mostViolated"], slices=[mv],
+                  loops=loops_file([loop_contract(mv_sym, 0,
+                                                  "index <= lSize && deleteIndex <= lSize && (deleteIndex == lSize || deleteIndex < index) && lSize == __CPROVER_loop_entry(lSize) && "
+                                                  "((deleteIndex < lSize) == (mostViolated != 0)) && (deleteIndex < lSize ==> (char *)mostViolated == (char *)verif_pool + deleteIndex * verif_sizeof_constraint) && "
+                                                  "(verif_K_idx < lSize ==> ((void **)%s)[verif_K_idx] == verif_K)" % LD,
+                                                  "index, constraint, slack, slackForMostViolated, mostViolated, deleteIndex, __CPROVER_object_whole(%s)" % LD, "lSize - index",
+                                                  {"index": "1::1::index", "constraint": "1::constraint", "slack": "1::slack",
+                                                   "slackForMostViolated": "1::slackForMostViolated", "mostViolated": "1::mostViolated",
+                                                   "deleteIndex": "1::deleteIndex", "lSize": "1::lSize"})]),
+                  flags=["--sat-solver", "cadical"], backend="sat:cadical",
+                  domain="every list length up to 10^6 (the constraints a pool of distinct live objects), every slack value, ghost list index K",
+                  expect=[r'postcondition', r'loop_invariant_step', r'assertion']))
+
+
 def jobs(tier):
     js = []
     base = "#include <verif_base.h>\n"
@@ -184,28 +259,10 @@ def jobs(tier):
                       slices=[ctors[k - 1], cls, enum], domain="all argument values the constructor's assertion admits",
                       expect=[r'h_ActionInfo\.assertion'], replay=replay_ai,
                       note="typedef std::list<...> ConnUpdateList replaced by an opaque three-word struct; Polygon's constructors are empty shims"))
-    # ---------------- IncSolver::mostViolated: all list indices in bounds (loop contract)
+    # ---------------- IncSolver::mostViolated (loop contract, element hook): see mostViolated_job()
+    js.append(mostViolated_job())
     c01 = _mod("C01")
     pre = prelude("vpsc.h")
-    shim_filled = c01.fill(pre, c01.SHIM_POSITION, c01.SHIM_UPOSITION, c01.SHIM_SLACK)
-    mv = slice_func(SV, r'^Constraint\* IncSolver::mostViolated\(Constraints &l\)', "IncSolver::mostViolated")
-    zero = slice_lines(SV, r'^static const double ZERO_UPPERBOUND=-1e-10;', 1, "ZERO_UPPERBOUND")
-    # the function uses no member of IncSolver: the class qualifier is dropped so that its symbol has a single parameter
-    # (goto-instrument's loop-contract symbol_map cannot name symbols containing a comma); if it ever uses a member the TU stops compiling
-    mv_text = subst(mv, [(r'Constraint\* IncSolver::mostViolated\(Constraints &l\)', 'Constraint* mostViolated(Constraints &l)', 1)])
-    mv_cxx = (base + c01.EXTERN + shim_filled + "namespace vpsc {\n" + zero.text + "\n" + mv_text + "\n}\n"
-              'extern "C" void *w_mostViolated(void *s, void *l) { return vpsc::mostViolated(*(vpsc::Constraints *)l); }\n')
-    mv_sym = os.environ.get("VERIF_MV_SYM", "vpsc::mostViolated(ref_struct_tag(identifier=vpsc::tag-Constraints))")
-    js.append(Job("mostViolated", "U", spec, "h_mostViolated", cxx=mv_cxx, enforce="w_mostViolated", replace=["w_slack"],
-                  defines=["JOB_mostViolated"], slices=[mv], no_pointer_check=True,
-                  loops=loops_file([loop_contract(mv_sym, 0,
-                                                  "index <= lSize && deleteIndex <= lSize && (deleteIndex == lSize || deleteIndex < index) && lSize == __CPROVER_loop_entry(lSize)",
-                                                  "index, constraint, slack, slackForMostViolated, mostViolated, deleteIndex", "lSize - index",
-                                                  {"index": "1::1::index", "constraint": "1::constraint", "slack": "1::slack",
-                                                   "slackForMostViolated": "1::slackForMostViolated", "mostViolated": "1::mostViolated",
-                                                   "deleteIndex": "1::deleteIndex", "lSize": "1::lSize"})]),
-                  domain="every list length up to 10^6, every slack value; element dereferences unchecked (DESIGN 2.9)",
-                  expect=[r'postcondition', r'loop_invariant_step', r'assertion']))
     # ---------------- Blocks::cleanup: bounded stand-in (it frees through every element, DESIGN 2.9)
     cl = slice_func(BC, r'^void Blocks::cleanup\(void\)', "Blocks::cleanup")
     nmax = 4 if tier == "quick" else 6
@@ -277,13 +334,43 @@ def jobs(tier):
     for pid in ("C05", "C16", "C01", "C20"):
         m = _mod(pid)
         for j in m.jobs(tier):
-            if j.cls != "U" or j.no_pointer_check or j.name == "mirror_layout" or j.enforce is None:
+            if j.cls != "U" or j.no_pointer_check or j.name == "mirror_layout" or j.enforce is None or j.name.startswith("worklist_pick"):
                 continue
             j.name = "%s__%s" % (pid, j.name)
             j.count = "safety"
             j.replay = None
             j.note = (j.note + " " if j.note else "") + "[job of %s; only its safety-class obligations count for C15]" % pid
             js.append(j)
+    # ---------------- PairingHeap::combineSiblings (libvpsc/pairing_heap.h; the queue under Block::in/out and under shortest_paths): every index into its scratch
+    #                  array is in bounds, for every number of siblings up to two beyond the array's initial size (bounded).  The initial size is read from the
+    #                  constructor's text; the template member is de-templatised textually (template header dropped, <T,TCompare> and <T> removed).
+    PH = "libvpsc/pairing_heap.h"
+    cs_t = slice_func(PH, r'^PairingHeap<T,TCompare>::combineSiblings\( PairNode<T> \*firstSibling \)', "PairingHeap::combineSiblings")
+    ctor_l = slice_lines(PH, r'^\s*PairingHeap\(\) : root\(nullptr\), counter\(0\), siblingsTreeArray\(\d+\) \{ \}', 1, "PairingHeap() constructor")
+    n0 = int(re.search(r'siblingsTreeArray\((\d+)\)', ctor_l.text).group(1))
+    if not (1 <= n0 <= 16):
+        raise Undecided("C15: initial size of siblingsTreeArray is %d (bounded job models 1..16)" % n0)
+    cs_text = subst(cs_t, [(r'PairingHeap<T,TCompare>::', 'PairNode *PairingHeap::', 1), (r'PairNode<T>', 'PairNode', len(re.findall(r'PairNode<T>', cs_t.text)))])
+    ph_cxx = ("#include <verif_base.h>\n#include <vector>\n" 'extern "C" { void w_link(void *first, void *second); void *malloc(size_t); }\n'
+              "struct PairNode { int element; PairNode *leftChild, *nextSibling, *prev; };\n"
+              "// stand-in: the scratch array and the two functions; compareAndLink is behind the harness (array indexing does not depend on it)\n"
+              "class PairingHeap { public: std::vector<PairNode *> siblingsTreeArray; PairNode *combineSiblings(PairNode *firstSibling);\n"
+              "    void compareAndLink(PairNode *&first, PairNode *second) const { w_link((void *)first, (void *)second); } };\n" +
+              cs_text + "\n"
+              "static PairNode verif_parent, verif_node[%d];\n" % (n0 + 3) +
+              'extern "C" void *w_combine(unsigned n) {\n'
+              "  PairingHeap *h = (PairingHeap *)malloc(sizeof(PairingHeap)); h->siblingsTreeArray._d = (PairNode **)malloc(sizeof(PairNode *) * %d); h->siblingsTreeArray._n = %d; h->siblingsTreeArray._cap = %d;\n"
+              "  for (unsigned i = 0; i < %d; ++i) { verif_node[i].nextSibling = (i + 1 < n) ? &verif_node[i + 1] : 0; verif_node[i].prev = i ? &verif_node[i - 1] : &verif_parent; verif_node[i].leftChild = 0; }\n"
+              "  verif_parent.leftChild = &verif_node[0]; verif_parent.nextSibling = 0;\n"
+              "  return (void *)h->combineSiblings(&verif_node[0]); }\n" % (n0, n0, n0, n0 + 3))
+    # the slice starts at the qualified name: its return type line (`PairNode<T> *`) and template header are above it and dropped
+    # one job per number of siblings (a symbolic number made cbmc run out of memory in propositional reduction: symbolic-size reallocation in resize())
+    for nsib in range(1, n0 + 3):
+        js.append(Job("pairing_heap_combineSiblings_indexes_in_bounds_%d" % nsib, "B", spec, "h_combine", cxx=ph_cxx, defines=["JOB_combine", "COMBINE_N=%d" % nsib], slices=[cs_t, ctor_l],
+                      stub_variant="bounded", unwind=2 * n0 + 6, flags=["--sat-solver", "cadical", "--no-malloc-may-fail"], backend="sat:cadical", replay=replay_heap, timeout=300,
+                      bound="exactly %d sibling(s); jobs for 1 to %d siblings (two beyond the scratch array's initial size %d, which is read from the constructor); loops unwound %d times with unwinding assertions" % (nsib, n0 + 2, n0, 2 * n0 + 6),
+                      domain="the sibling chain of that length; compareAndLink behind the harness",
+                      expect=[r'std::vector index in bounds|assertion']))
     return js
 
 
@@ -298,13 +385,15 @@ ASSUMPTIONS = [
     "scope: ONLY the functions under contract (listed in functions_under_contract), each under a precondition taken from its call sites; this is a small part of C15",
     "borrowed jobs (names C05__*, C16__*, C01__*, C20__*): the same contract jobs as in those properties, run again here; only their safety-class obligations "
     "(bounds, pointer validity, arithmetic overflow, COLA_ASSERT, declared frame) are counted for C15",
-    "mostViolated: element dereferences unchecked (--no-pointer-check, DESIGN 2.9); Blocks::cleanup is a bounded stand-in (listed under 'bounded', not counted)",
+    "mostViolated: 'element i of the list is object i of a pool of distinct live constraints' is a precondition instantiated at each access by the stub vector's element hook (pointer checks on); Blocks::cleanup is a bounded stand-in (listed under 'bounded', not counted)",
     "deliberately not demanded: initialisation of ActionInfo::newPosition.x/y in constructors whose action types never read it (Point() leaves them unset by design)",
     "NOT decided (residue, most of C15): histories of API calls, ownership across router/shape/pin/connector lifetimes, leaks at teardown, termination, every function not under contract",
+    "pairing_heap_combineSiblings_indexes_in_bounds_<n> are BOUNDED stand-ins (one job per number of siblings, 1 to initial-array-size + 2; template member de-templatised textually; compareAndLink behind the harness): "
+    "every index into PairingHeap's scratch array, the terminating null slot included, is inside the array",
     "freeAssociatedObjects_releases_once is a BOUNDED stand-in (up to 4 entries over 2 constraints): std::list with sort()/unique() is an array-backed stub, `delete` is a counting note",
     "ConnRef_destructor_purges_queue: the destructor's body with every callee behind a stand-in that forwards to the harness; `delete x` replaced by a note; it decides only that "
     "removeObjectFromQueuedActions(this) is called exactly once in every state of the connector, not what the callees do",
 ]
 EXPLANATION = ("Memory-safety, initialisation and internal-assertion obligations of the functions under contract: ActionInfo's six constructors determine every scalar "
-               "field Router::processActions reads; IncSolver::mostViolated indexes its list in bounds for every length (loop contract); Blocks::cleanup compacts and frees "
+               "field Router::processActions reads; IncSolver::mostViolated indexes its list in bounds, dereferences only live constraints and removes exactly the constraint it returns, for every length (loop contract, element hook); Blocks::cleanup compacts and frees "
                "correctly (bounded); plus the safety-class obligations of the C05/C16/C01/C20 contract jobs.")
